@@ -238,53 +238,60 @@ CHECKS.update(CHECKS_EXTRA)
 
 # what the four rounds of independently seeded changes added to each check (DESIGN.md section 8.3 has the reasons)
 ADDED = {
-    "C01": "Also: *args / **kwargs call forms, mixed lax/strict declarations, a data class with a no-input constrained field under addition=True.",
+    "C01": "Also: *args / **kwargs call forms, mixed lax/strict declarations, a data class with a no-input constrained field under addition=True, data classes spread "
+           "over three levels of inheritance; every exploration runs after an unrelated @utype.apply declaration (history prefix).",
     "C02": "Also: constants of a subclass type, Enum classes as the enum constraint (incl. a Flag and members with unhashable values), "
-           "triples of constraints for every origin in the thorough tier.",
+           "triples of constraints for every origin in the thorough tier, constraints inherited from several rules, constraints added through "
+           "Rule.annotate on top of a rule, a rule without an origin type (const / enum incl. None).",
     "C03": "Also: untyped rules with lax const / enum, lax bounds of another numeric type, unions whose earlier member accepts instances of a "
-           "later one; drift of a union is sub-classified (strict-stage capture = recorded design finding, lenient-only capture = violation).",
+           "later one; drift of a union is sub-classified (strict-stage capture = recorded design finding, lenient-only capture = violation); containers of data-class instances under allow_subclasses=False.",
     "C04": "Also: addition=False option sets, hostile excess values, contains declarations, a discriminator shard, a cast_keyword_str shard "
            "(keys that cannot be cast). Non-termination = over the line budget AND an untraced confirmation run of >= 30 s does not complete.",
     "C05": "Also: data_first_search / ignore_alias_conflicts combined with addition policies, falsy extra values, both key orders, fields combining "
-           "mode with a mode-string no_input / no_output, classes declared after the class under test (subclass, unrelated class).",
-    "C06": "Also: the same additions as C05 (the universe is shared) and declarations where a subclass re-declares an aliased base field plainly.",
+           "mode with a mode-string no_input / no_output, classes declared after the class under test (subclass, unrelated class), case_insensitive=False on a field, "
+           "required in some modes only, data-first search with ignore_alias_conflicts.",
+    "C06": "Also: the same additions as C05 (the universe is shared) and declarations where a subclass re-declares an aliased base field plainly or only turns case_insensitive on over an inherited mixed-case field.",
     "C07": "Also: instances built by __from__ / as nested fields / with runtime options, multi-key update and |= with mappings and other instances, "
            "a dependant property that can become hidden, absent keys must not leave stale attributes, collect_errors + addition option sets, and a "
            "second class model (inherited fields, mixed-case names, case_insensitive / immutable subclass options).",
     "C08": "Also: decoration with Options(addition=True) / Options(collect_errors=True), unannotated parameters, @utype.parse above @staticmethod, "
            "generator functions as static / class methods of a parsed class, falsy generator return values, sequences of complete uses of one "
-           "decorated generator function.",
+           "decorated generator function; parameters that declare dependencies.",
+    "C09": "Also: the combined type as the type of an assigned field (attribute / item / DataClass attribute) against the plain conversion; "
+           "algebra on operands that were used as operands before.",
     "C10": "Also: the axes ignore_constraints=True and max_params=1, a Schema with a typed property computed from a field, "
-           "data-first search with ignore_alias_conflicts, functions with positional-only parameters.",
+           "data-first search with ignore_alias_conflicts, functions with positional-only parameters, fields with dependencies and with a second spelling.",
     "C11": "Also: element types failing with OverflowError / decimal.InvalidOperation, containers reached through Optional / Union / any_of, fields "
            "required in a mode with a default, typed properties with a getter on_error, runtime policies differing from the declared ones for "
-           "extra keys; sequences up to length 7 in the thorough tier.",
+           "extra keys; sequences up to length 7 in the thorough tier; the class-level policy given at run time or by a subclass.",
     "C12": "Also: lists / tuples of data-class instances and of non-dict mappings, memoryviews, Options(addition=None, **flags), the caller's "
-           "no_explicit_cast for data-class targets; every atom wrapped in one- and two-element containers in the thorough tier.",
+           "no_explicit_cast for data-class targets; every atom wrapped in one- and two-element containers in the thorough tier; parametrised container targets; further "
+           "spellings of a field next to unknown keys.",
     "C13": "Also: programs with properties (getter / setter of different types), fields combining mode with mode-string no_input / no_output, "
            "Final fields, class options no_default / defer_default / ignore_required. Recorded & / ^ / bool findings only cover their "
-           "computed sub-class (last argument's schema holds, valid under >= 2 branches, the same number as int passes).",
+           "computed sub-class (last argument's schema holds, valid under >= 2 branches, the same number as int passes). Fields typed Any; enums declared below a member-less base and with mixed member types.",
     "C14": "Also: two-level container shapes (Set[Tuple], List[Set], Dict[str, Inner], FrozenSet ...), unorderable and name-crossing Enums, "
-           "Optional[int] elements, Decimals with exponents far outside the float range; all value pairs in the thorough tier.",
+           "Optional[int] elements, Decimals with exponents far outside the float range; all value pairs in the thorough tier; UTC offsets with seconds / sub-seconds, frozensets of tuples, subnormal-range Decimals.",
     "C15": "Also: property names colliding after sanitising (both orders), keywords with falsy values, prefixItems with unconstrained members, "
            "every ordered pair of scalar schemas under each combinator in the thorough tier; allOf findings are sub-classified "
            "(last member wins = recorded design finding). Crosscut schemas: enum / const beside other keywords, an explicit type beside a "
            "combinator, property counts with undeclared keys, dependentRequired over undeclared names, equal members; oneOf findings are "
-           "sub-classified by root cause (a value returned although two member types took the input is never covered).",
+           "sub-classified by root cause (a value returned although two member types took the input is never covered). Every shard runs after a parser with its own type_map was used (history prefix); single-value and empty ranges.",
     "C16": "Also: raising detectors, classes + metaclass, a non-class target, re-registration of one function under other criteria, a detector "
-           "that registers during the scan, a virtual subclass of an abstract class.",
+           "that registers during the scan, a virtual subclass of an abstract class; a registry declared on top of another one (base=).",
     "C17": "Also: twin scenarios (a program with forward references executed piecewise with probes against its direct-reference twin): constrained "
            "references, partial first calls of functions, *args / **kwargs / return / generator references (module level, local, postponed "
            "annotations), two bases with the same pending name, generics inside logical types (also in a local class), shipped generics (types.Array['B']), subclasses, async generators, "
            "result-only / params-only functions, a declared __init__ assigning a reference-typed field, Final / ClassVar under postponed annotations.",
     "C18": "Also: one-element-list wrapped nesting, decorated / DataClass / declared-__init__ declarations, limits coming from an override=True "
            "outer class, collecting declarations, four strictness option sets and a self-containing-input family for the cost part, whose "
-           "cut-off is the counting leaf itself (no timing); the limit beside eight other options of the same declaration.",
+           "cut-off is the counting leaf itself (no timing); the limit beside ten other options of the same declaration; DAG inputs (one object at two depths).",
     "C19": "Also: cast_keyword_str with non-str keys, a positional mapping together with a keyword, force_default kinds, shared types with two "
-           "dependent fields, re-parsing an immutable input after the result was mutated.",
+           "dependent fields, re-parsing an immutable input after the result was mutated; default factories that build new objects holding any mutable "
+           "member; one union type under different options within a history.",
     "C20": "Also: Type['X'] fields, two classes sharing one typing-cached reference, a warm registry cache racing an unrelated registration; "
            "nested code objects (lambdas, inner functions) of the instrumented functions are scheduling points; the cooperative lock honours "
-           "blocking=False.",
+           "blocking=False; a subclass sharing a constrained pending reference with its base; a well-filled resolution cache.",
 }
 
 NOT_YET = "check not built yet in this round (planned, see DESIGN.md §3)"
